@@ -199,6 +199,20 @@ def compare_translation(res, f, mx, m, strings):
                 return False
         res.broke('correspondence:translator-vs-loader', '%s: %d loader nodes vs %d translated' % (f, len(real), len(mine)))
         return False
+    # the syntax notes the loader keeps for each segment are those written in the XML (own parse)
+    notes = mx.get('notes', {})
+    for ip, n in walk(m):
+        if not n.is_segment():
+            continue
+        want = notes.get('.'.join(str(i) for i in ip))
+        if want is None:
+            continue
+        got = [list(x) for x in n.syntax]
+        res.count()
+        if got != want:
+            res.violation('map:%s:notes:%s' % (f, n.get_path()),
+                          '%s: segment %s is loaded with syntax notes %r, the map file declares %r' % (f, n.get_path(), got, want),
+                          {'map': f, 'call': 'load_map_file(map) -> segment_if.syntax', 'node': n.get_path(), 'observed': repr(got), 'required': repr(want)})
     return True
 
 
@@ -244,6 +258,8 @@ def run(tier):
     param = pyx12.params.params()
     mapdir = os.path.join(common.REPO, 'pyx12', 'map')
     nmaps = 0
+    viols_by_file = {}
+    unloadable = set()
     for f in side['files']:
         mod = side['maps'].get(f, {}).get('module')
         thm = 'Gen.%s_violations' % mod
@@ -257,10 +273,12 @@ def run(tier):
                           {'call': 'pyx12.map_if.load_map_file', 'args': [f], 'observed': repr(ex), 'required': 'loads'})
             if lean_ok:
                 res.discharged.append(thm)
+            unloadable.add(f)
             continue
         nmaps += 1
         compare_translation(res, f, side['maps'][f], m, strings)
         viols = oracle_violations(m)
+        viols_by_file[f] = viols
         nodes = list(walk(m))
         res.count(len(nodes) * len(RULE_NAMES))
         for ip, n in nodes:
@@ -381,6 +399,14 @@ def run(tier):
                 pyx12.map_if.load_map_file(e['map_file'], param)
             except Exception as ex:
                 pass  # reported above per file
+            # a listed defect of a draft map on disk (unloadable, malformed repeat / usage) is one thing; the INDEX naming such a
+            # map makes documents reach it
+            broken_rules = sorted(r for r, _ in viols_by_file.get(e['map_file'], ()) if r in ('repeat', 'usage'))
+            if broken_rules:        # (an indexed map that does not load is reported by the per-file load rule)
+                res.violation('pred:index-names-unusable-map:%s' % e['map_file'],
+                              'index entry %r names %s, which %s' % ((e['icvn'], e['vriic'], e['fic'], e['tspc']), e['map_file'],
+                                                                      'does not load' if e['map_file'] in unloadable else 'has malformed %s values' % '/'.join(broken_rules)),
+                              {'entry': e, 'required': 'every map the index names loads and has well-formed usages and repeat limits'})
         got = idx.get_filename(e['icvn'], e['vriic'], e['fic'], e['tspc'])
         if got != e['map_file']:
             res.violation('map:maps.xml:lookup:%d' % i, 'get_filename%r returns %r, the entry names %r' % ((e['icvn'], e['vriic'], e['fic'], e['tspc']), got, e['map_file']), {'entry': e})
